@@ -104,6 +104,18 @@ def H(text):
     return hexs(text)
 
 
+def crash_tags(call, g):
+    """Class tags of a crash: the call and the panic location make the class precise."""
+    msg = " ".join(str(x) for x in g[1:]) if isinstance(g, tuple) else str(g)
+    if g[0] == "panic" and call.startswith("simple-selectors(") and "builtin/functions/selector.rs" in msg \
+            and "not yet implemented" in msg:
+        return ["crash", "S2"]
+    if g[0] == "panic" and call.startswith("selector-replace(") and "selector/extend/mod.rs" in msg \
+            and "Option::unwrap()" in msg:
+        return ["crash", "S3"]
+    return ["crash"]
+
+
 def dec(ans):
     """'ok <hex>' -> text"""
     p = ans.split(" ")
@@ -211,7 +223,7 @@ def run(tier, seed):
     lap('start (after proof + runner build)')
     # ---------------------------------------------------------------- is-superselector ------
     pairs = [(a, b) for a, b in CORPUS_SUPER]
-    gp = gen_super_pairs(rng, 2600 if not big else 40000)
+    gp = gen_super_pairs(rng, 2000 if not big else 40000)
     pairs += [(G.list_text(a), G.list_text(b)) for a, b in gp]
     trees = [None] * len(CORPUS_SUPER) + gp
     if big:
@@ -315,7 +327,7 @@ def run(tier, seed):
     lap('before selector-unify')
     # ---------------------------------------------------------------- selector-unify --------
     ucases = []
-    for _ in range(900 if not big else 12000):
+    for _ in range(700 if not big else 12000):
         r = rng.random()
         if r < 0.6:
             a = [[G.gen_compound(rng, sel_depth=rng.choice([0, 0, 1]))]]
@@ -448,7 +460,7 @@ def run(tier, seed):
             meta.append((k, "rule"))
         elif (g[0] == "ok") != (rule_sel is not None) and not (g[0] == "err" and r[0] == "err"):
             ck.hist(f"{op}:function-vs-rule-outcome-differs")
-            if g[0] == "ok" and r[0] == "err" or g[0] == "err" and rule_sel is not None:
+            if (g[0] == "ok" and r[0] == "err" or g[0] == "err" and rule_sel is not None) and m != "err cant-append":
                 fail(case, {"impl_observation": g, "nested_rule": r, "why": "function and nested rule disagree on success"},
                      [f"{op}-vs-rule"])
         # tie: model result
@@ -495,9 +507,10 @@ def run(tier, seed):
     lines, meta = [], []
     for k, (s, t, e) in enumerate(ecases):
         case = f"selector-extend/replace({q(s)}, {q(t)}, {q(e)})"
-        for g in (ex[k], rp[k]):
+        for fn, g in (("selector-extend", ex[k]), ("selector-replace", rp[k])):
             if g[0] in ("panic", "timeout", "abort", "bad"):
-                fail(case, {"impl_observation": g}, ["crash"])
+                call = f"{fn}({q(s)}, {q(t)}, {q(e)})"
+                fail(call, {"impl_observation": g}, crash_tags(call, g))
         if rules[k][0] in ("panic", "timeout", "abort"):
             fail(f"{s} {{i:0}} {e} {{@extend {t}}}", {"impl_observation": rules[k]}, ["crash"])
         rule_sel = rules[k][1].get(k, (None,))[0] if rules[k][0] == "ok" else None
@@ -507,9 +520,12 @@ def run(tier, seed):
             lines.append(f"sel equiv {H(ex[k][1])} {H(rule_sel)} {seed * 41 + k} {NR} {EXH}")
             meta.append((k, "extend-vs-@extend", ex[k][1], rule_sel))
             nontrivial = ex[k][1].strip() != s.strip()
-            if rp[k][0] == "ok":
-                lines.append(f"sel equiv {H(ex[k][1])} {H(s + ', ' + rp[k][1])} {seed * 43 + k} {NR} {EXH}")
-                meta.append((k, "extend-vs-original+replace", ex[k][1], s + ", " + rp[k][1]))
+            if rp[k][0] == "ok" and ":not(" not in s:
+                # (not under :not(), where extension narrows instead of widening)
+                # extend keeps the original and adds every combination; replace substitutes every occurrence:
+                # original ∪ replace ⊆ extend
+                lines.append(f"sel subset {H(ex[k][1])} {H(s + ', ' + rp[k][1])} {seed * 43 + k} {NR} {EXH}")
+                meta.append((k, "original+replace-within-extend", ex[k][1], s + ", " + rp[k][1]))
         ck.count(("extend", s, t, e), nontrivial)
         if k % 83 == 0:
             ck.sample({"case": case, "extend": ex[k], "replace": rp[k], "@extend": rule_sel})
@@ -569,7 +585,7 @@ def run(tier, seed):
         ck.hist("weird-call:" + g[0])
         ck.count(("weird", e), g[0] in ("ok", "null"))
         if g[0] in ("panic", "timeout", "abort", "bad"):
-            fail(e, {"impl_observation": g}, ["crash"])
+            fail(e, {"impl_observation": g}, crash_tags(e, g))
 
     lap('before verdicts')
     # ---------------------------------------------------------------- verdicts --------------
@@ -578,7 +594,9 @@ def run(tier, seed):
     for _, case, payload, tags in failing:
         if ck.impl_violation(case, payload, tags=tags):
             reported += 1
+    ck.cov["disagreement_samples"] = ck.disagreements
     ck.cov["failing_cases_by_tag"] = {}
+    ck.cov["failing_samples"] = [{"case": c, "tags": t, "impl": str(p.get("impl_observation"))[:200]} for _, c, p, t in failing[:40]]
     for _, _, _, tags in failing:
         key = ",".join(tags) or "untagged"
         ck.cov["failing_cases_by_tag"][key] = ck.cov["failing_cases_by_tag"].get(key, 0) + 1
